@@ -528,7 +528,22 @@ def run(ctx):
     r6 = borrow(k1, "C05.R6", "run-time plural rules are those of the rendered locale and rule type",
                 "`the form is the CLDR category of the count in that locale`: PluralRules cached under a coarser key (language only, or "
                 "without the rule type) serve one locale's / type's categories to another", only=r"get_plural_rules", floor=1)
-    return [r1_tables(ctx), r2_candidates(ctx), r3_diagnostics(ctx, prog), r4_selectors(ctx), r5_rule_type_kept(ctx, prog), r6]
+    # `in that locale`: also for a locale that gets the key from a fallback locale - the generated arm shared by several locales
+    # must leave the builder's locale field alone (arm read-back of rules/gentext.py, shared with C18.R6)
+    from rules import gentext, absint as _absint
+    from report import Rule as _Rule
+    r7 = _Rule("C05.R7", "generated arms select the plural form with the locale being rendered, also in an arm shared with fallback locales",
+               "`the CLDR category of the count in that locale`: a locale that inherits a plural key renders the owner's forms, but chooses among them by its own "
+               "rules; an arm that rebinds the locale field to the owner's locale selects by the owner's rules", floor=2)
+    try:
+        gentext.check_locale_arms(ctx, r7, rid="R7")
+    except _absint.Unknown as u:
+        r7.viol("R7:undecided", "the per-locale generators cannot be interpreted on the current code (%s): not decided on this tree (fail closed)" % str(u)[:300])
+    r3 = r3_diagnostics(ctx, prog)
+    # `every unused form is reported`: the collector keeps each warning it is handed (rules/c07.py, shared with C07.R4)
+    from rules import c07
+    c07.collector(ctx, r3, "R3")
+    return [r1_tables(ctx), r2_candidates(ctx), r3, r4_selectors(ctx), r5_rule_type_kept(ctx, prog), r6, r7]
 
 
 MANIFEST_ENTRY = {
